@@ -2,7 +2,7 @@
    Property theorems only; proofs are in Proofs/ChainProofs.v and Proofs/StatsProofs.v. *)
 From Coq Require Import List ZArith Bool.
 Import ListNotations.
-From Goat Require Import Model.Chain Proofs.ChainProofs.
+From Goat Require Import Model.Chain Proofs.ChainProofs Model.Stats Proofs.StatsProofs.
 
 (* ---- (a) interceptor chains ---- *)
 
@@ -105,4 +105,87 @@ Proof. vm_compute. reflexivity. Qed.
 Example C20_ex_site :
   site (installed [OSingle (transform (Nat.add 1) (fun x => x)); OOther; OChain [transform (Nat.mul 2) (fun x : nat => x)]; OOther])
        (fun x => x) 5%nat = Some 10%nat.
+Proof. vm_compute. reflexivity. Qed.
+
+(* ---- (b) stats handlers: Model/Stats.v gives, for every role and every exit of
+   the code path, the events one installed handler receives for one RPC.
+   [wf_finished l b]: l = TagRPC, Begin, plain events, End b - exactly one
+   Begin, before every other event; exactly one End, last; b = (End.Error == nil). ---- *)
+
+(* client, unary (invoke + CallUnaryMethod), every exit: well-formed; End.Error
+   is nil iff Invoke succeeded - EXCEPT when the error is io.EOF.
+   Full statement  forall x, cu_wf x = true -> wf_finished (cu_events x) (cu_success x)
+   is false of the code: C20_stats_end_eof_refuted. *)
+Theorem C20_stats_client_unary_partial : forall x : cu_exit,
+  wf_finished (cu_events x) (cu_end_flag x) /\
+  (cu_wf x = true -> cu_eof x = false -> cu_end_flag x = cu_success x).
+Proof. intro x. split; [apply cu_wf_finished|apply cu_end_iff_success]. Qed.
+Print Assumptions C20_stats_client_unary_partial.
+
+(* client, stream: a failed open (refused on a failed connection - fix D-20a -
+   or failing opening write) is a finished, failed RPC *)
+Theorem C20_stats_client_stream_open_failed : forall (op : cs_open) (ops : list cs_op),
+  op <> CSO_ok -> wf_finished (cs_events op ops) false.
+Proof. exact cs_failed_open. Qed.
+Print Assumptions C20_stats_client_stream_open_failed.
+
+(* ... and an opened stream, for EVERY sequence of caller calls and arrivals:
+   Begin first; no End while nothing ended the stream; exactly one End once
+   something did, with Error nil iff the first ending step is a trailer with an
+   OK status ([cs_outcome]); after it only the OutTrailer events of CloseSend
+   calls made after the end (CloseSend does not look at the stream's state) *)
+Theorem C20_stats_client_stream : forall ops : list cs_op,
+  match cs_outcome false ops with
+  | None => exists mid, cs_events CSO_ok ops = TagRPC :: Begin :: mid /\ Forall (fun e => is_plain e = true) mid
+  | Some b => exists mid post, cs_events CSO_ok ops = TagRPC :: Begin :: mid ++ End b :: post /\
+                Forall (fun e => is_plain e = true) mid /\ Forall (fun e => e = OutTrailer) post
+  end.
+Proof. exact cs_open_events. Qed.
+Print Assumptions C20_stats_client_stream.
+
+(* server, unary (processUnaryRpc): every handled request is well-formed; End.Error
+   is nil iff the handler returned nil - EXCEPT for io.EOF (StatsEndRPC) *)
+Theorem C20_stats_server_unary_partial : forall (d : su_dec) (r : res),
+  wf_finished (su_events (SU_run d r)) (res_flag r) /\ (r <> REof -> res_flag r = res_ok r).
+Proof. intros d r. split; [apply su_wf_finished|apply res_flag_ok]. Qed.
+Print Assumptions C20_stats_server_unary_partial.
+
+(* server, stream (runStream + the stream object), for every program of the handler *)
+Theorem C20_stats_server_stream_partial : forall (ops : list ss_op) (r : res),
+  wf_finished (ss_events (SS_run ops r)) (res_flag r) /\ (r <> REof -> res_flag r = res_ok r).
+Proof. intros ops r. split; [apply ss_wf_finished|apply res_flag_ok]. Qed.
+Print Assumptions C20_stats_server_stream_partial.
+
+(* the exception is real (finding server-end-eof-nil / client-end-eof-nil): a handler
+   returning io.EOF, and an Invoke failing with io.EOF, end with End.Error = nil *)
+Theorem C20_stats_end_eof_refuted :
+  (exists d r, res_ok r = false /\ wf_finished (su_events (SU_run d r)) true) /\
+  (exists ops r, res_ok r = false /\ wf_finished (ss_events (SS_run ops r)) true) /\
+  (exists x, cu_wf x = true /\ cu_success x = false /\ wf_finished (cu_events x) true).
+Proof.
+  split; [|split].
+  - exists DecOk, REof. split; [reflexivity|apply (su_wf_finished DecOk REof)].
+  - exists [], REof. split; [reflexivity|apply (ss_wf_finished [] REof)].
+  - exists (CU_early REof). repeat split. apply (cu_wf_finished (CU_early REof)).
+Qed.
+Print Assumptions C20_stats_end_eof_refuted.
+
+(* a request refused before dispatch (undecodable metadata) reaches no stats handler at all *)
+Theorem C20_stats_refused : su_events SU_bad_metadata = [] /\ ss_events SS_bad_metadata = [].
+Proof. split; reflexivity. Qed.
+Print Assumptions C20_stats_refused.
+
+(* exactly one ConnBegin and one ConnEnd (tagged with TagConn's context) per
+   served connection, on every exit of serve *)
+Theorem C20_conn : forall x : serve_exit, serve_events x = [TagConn; ConnBegin true; ConnEnd true].
+Proof. exact serve_conn. Qed.
+Print Assumptions C20_conn.
+
+Example C20_ex_client_stream :
+  cs_events CSO_ok [CSendOk; PMsg; CRecvOk; CCloseSend; PTrailer true; CCloseSend; PFail] =
+  [TagRPC; Begin; OutHeader; OutPayload; InHeader; InPayload; OutTrailer; End true; OutTrailer].
+Proof. vm_compute. reflexivity. Qed.
+Example C20_ex_server_stream :
+  ss_events (SS_run [SRecvOk; SSetHeader; SSendMsg; SSendMsg] RErr) =
+  [TagRPC; Begin; InHeader; InPayload; OutHeader; OutPayload; OutPayload; OutTrailer; End false].
 Proof. vm_compute. reflexivity. Qed.
